@@ -17,6 +17,8 @@ OBLIGATIONS = [
     (P + "l1_inv", "every L1 entry (k,v,deadline,g) was after some prefix of the history the responsible server's entry for k with generation g"),
     (P + "coherent_fetch", "a fetch on any node (with or without L1, any limits, any number of clients/servers) returning (v,deadline,g) implies: a direct fetch on the responsible server at that moment returns the same v, deadline, g; no WFwire hypothesis"),
     (P + "coherent_fetch_ideal_partial", "histories whose stores are WFwire: every hit satisfies Spec.answerOk against the ideal shared cache = value and deadline of the latest store of the key by ANY node, not invalidated since by ANY node's rise/clear, not expired; with NUL-free keys also the trigger clause (a fetch asking for triggers gets a superset of the entry's trigger set)"),
+    (P + "live_entry_found_on_every_node", "no server has a limit, stores WFwire: if the ideal shared cache holds k live, a fetch of k by any node (any L1 content/limit) hits with that value and deadline (no spurious miss)"),
+    (P + "answerOk_of_every_fetch_partial", "the whole judge predicate Spec.answerOk (mayEvict=false, hit and miss clauses, trigger clause) holds of every fetch answer of the model: unlimited servers, WFwire stores, NUL-free keys"),
     (P + "trigger_nul_counterexample", "finding tcp-trigger-nul: trigger a\\0b is split into a and b; after rise(a\\0b) by another node both nodes are still served the value the ideal cache no longer holds"),
     (P + "trigger_empty_counterexample", "finding tcp-trigger-empty: a store with an empty trigger name is dropped by the server; the previous value stays and is served to every node"),
     (P + "key_nul_counterexample", "finding tcp-key-nul: for the key k\\0x a fetch asking for the trigger set receives {k,x}; the predicate's trigger clause is false, its value clause true"),
